@@ -49,8 +49,8 @@ func main() {
 // gen: which types and instances depends on the tier and the seed.
 //
 //	quick    : Patient, Observation, Bundle + 24 types rotating with the seed, instance = seed mod 3,
-//	           plus the hand-written model resources MR1..MR3 and 6 randomly thinned instances
-//	thorough : all 146 types (instance number rotating so that every choice alternative index occurs), MR1..MR3,
+//	           plus the hand-written model resources MR1..MR3, MR5 and 6 randomly thinned instances
+//	thorough : all 146 types (instance number rotating so that every choice alternative index occurs), MR1..MR3, MR5,
 //	           and 40 randomly thinned instances
 func gen(treesPath, resPath string) {
 	seed := lib.Seed()
@@ -113,7 +113,9 @@ func gen(treesPath, resPath string) {
 			lib.Fatal("%v", err)
 		}
 	}
-	for _, m := range []string{"MR1", "MR2", "MR3"} {
+	// MR5: a Bundle whose entries are resources of DIFFERENT types that share element names and backbone short names
+	// (Patient.Contact / Organization.Contact): one evaluation walks both
+	for _, m := range []string{"MR1", "MR2", "MR3", "MR5"} {
 		emit(m, lib.LoadModelResource(m))
 	}
 	for n, j := range jobs {
